@@ -23,7 +23,7 @@ def glob_of(g):
     return path_of(g["arg"])
 
 
-TREE = ["f.py", "g.rs", "a/f.py", "b/f.py", "b/b/g.py", "a/b/f.rs", "src/m.py", "src/x y/n.rs", "gen/f.py", ".hid/h.py", "src/ig.py"]
+TREE = ["f.py", "g.rs", "a/f.py", "b/f.py", "b/b/g.py", "a/b/f.rs", "src/m.py", "src/x y/n.rs", "gen/f.py", ".hid/h.py", "hid/h.py", "src/ig.py"]
 CWDS = ["", "a", "src/x y", "b/b", "gen"]
 
 
@@ -53,17 +53,20 @@ def run(chk):
     scns = res.cases
     chk.rng.shuffle(scns)
     # always include the scenarios around directories named b
-    scns.sort(key=lambda c: 0 if any(p["dirs"][:1] == ["b"] for p in c["diff"]) else 1)
-    plan = scns[:120] + scns[120:][:(500 if quick else 6000)]
+    scns.sort(key=lambda c: 0 if any(p["dirs"][:1] in (["b"], [".hid"]) for p in c["diff"]) else 1)
+    plan = scns[:200] + scns[200:][:(500 if quick else 6000)]
     chk.exhaustive = False
     cases, meta = [], {}
     for i, s in enumerate(plan):
         exp = sorted(path_of(p) for p in s["expected"])
         files = {p: body(p, p in exp) for p in TREE}
         files[".gitignore"] = "src/ig.py\n"
-        args = ["list"] + [glob_of(g) for g in s["globs"]]
+        ign = []
         for g in s["ignores"]:
-            args += ["--ignore", glob_of(g)] if i % 2 else ["--ignore=" + glob_of(g)]
+            ign += ["--ignore", glob_of(g)] if i % 2 else ["--ignore=" + glob_of(g)]
+        # every order of subcommand, positional globs and --ignore flags the command line allows
+        pos = [glob_of(g) for g in s["globs"]]
+        args = [["list"] + pos + ign, ["list"] + ign + pos, ign + ["list"] + pos][i % 3]
         diff = None
         if not s["terminal"]:
             diff = ""
